@@ -189,6 +189,59 @@ class Cfg:
             self._defs = d
         return self._defs
 
+    def reachable_when_discr(self, adt_short, variant_index):
+        """Blocks reachable from the entry when every value of enum `adt_short` read in this body has discriminant
+        `variant_index`: at a switch on such a discriminant only the edge for that value is taken, and a switch on a
+        bool local all of whose (reachable) definitions are the same constant follows that constant (this is how
+        `matches!(x, A | B)` and `x == A` reach their users). Everything else keeps all its edges."""
+        from facts import short as _short
+        defs = self.defs()
+        infeasible = set()
+        for i, blk in enumerate(self.blocks):
+            tm = blk["term"]
+            if tm["t"] != "Switch":
+                continue
+            pl = op_place(tm["x"])
+            if pl is None or not isinstance(pl, int):
+                continue
+            ds = defs.get(pl, [])
+            if len(ds) != 1 or ds[0][0] != "stmt" or ds[0][3].get("r") != "Discr" or _short(ds[0][3].get("adt") or "") != adt_short:
+                continue
+            taken = tm["to"][-1]
+            for v, tgt in zip(tm["vals"], tm["to"]):
+                if v == variant_index:
+                    taken = tgt
+            infeasible |= {(i, tgt) for tgt in tm["to"] if tgt != taken}
+        for _ in range(len(self.blocks)):
+            reach = self.reachable_from(0, avoid_edges=infeasible)
+            grew = False
+            for i, blk in enumerate(self.blocks):
+                tm = blk["term"]
+                if i not in reach or tm["t"] != "Switch" or tm.get("xty") != "bool":
+                    continue
+                pl = op_place(tm["x"])
+                if pl is None or not isinstance(pl, int):
+                    continue
+                vals = set()
+                for d in defs.get(pl, []):
+                    if d[1] not in reach:
+                        continue
+                    k = op_const(d[3]["x"]) if d[0] == "stmt" and d[3].get("r") == "Use" and d[3]["d"] == pl else None
+                    vals.add(k.get("v") if k is not None and isinstance(k.get("v"), bool) else "?")
+                if len(vals) == 1 and "?" not in vals:
+                    c = int(vals.pop())
+                    taken = tm["to"][-1]
+                    for v, tgt in zip(tm["vals"], tm["to"]):
+                        if v == c:
+                            taken = tgt
+                    new = {(i, tgt) for tgt in tm["to"] if tgt != taken} - infeasible
+                    if new:
+                        infeasible |= new
+                        grew = True
+            if not grew:
+                return reach
+        return self.reachable_from(0, avoid_edges=infeasible)
+
     def stmt_operands(self, s):
         """Operands / places read by a statement dict (Assign)."""
         r = s.get("r")
